@@ -91,6 +91,26 @@ def pair_part(rep, wd, binpath, rnd, label, reps=1):
                 abs1.append({"multi": True, "envs": [], "cli": [{"id": t, "ok": True} for t in toks[0::2]]})
                 abs2.append({"multi": True, "envs": [], "cli": [{"id": t, "ok": True} for t in toks[1::2]]})
                 toks2.append(toks[1::2])
+    # the same application object run twice: the values of the second command line replace what the first one stored
+    for typ in V.BUILTIN:
+        tk = V.Tok(typ)
+        for role in ("opt", "arg"):
+            for di, default in enumerate(V.DEFAULTS[typ]):
+                for n1 in (1, 2):      # (a variable the second line does not mention keeps what the first run stored: not claimed)
+                    c, a = V.concrete(typ, role, di == 1, default, (), ("valid",) * n1, rnd)
+                    pre = []
+                    for _ in range(2):
+                        t = tk.valid()
+                        if t and not t.startswith("-") and t.strip() == t and "=" not in t:
+                            pre += ["-o=" + t] if role == "opt" else [t]
+                    if c["spec"].startswith("--") or (c["argv"] and c["argv"][0] == "--"):
+                        continue
+                    c["prerun"] = [pre]
+                    c["cli_first"] = list(c["cli"])
+                    cases.append(c)
+                    abs1.append(a)
+                    abs2.append({"multi": True, "envs": [], "cli": []})
+                    toks2.append([])
     sub = os.path.join(wd, label)
     os.makedirs(sub, exist_ok=True)
     res1, clean1, _ = V.predict(sub, abs1)
@@ -106,8 +126,11 @@ def pair_part(rep, wd, binpath, rnd, label, reps=1):
             rep.violation("%s: %s" % (describe(c), r), {"engine": "values", "case": c, "expected": None})
             continue
         w1, w2 = V.expected_value(c, p1, r), V.expected_value(c, p2, r)
+        if "pair" not in c:
+            w2 = []      # (a re-run case has no second variable)
         if not r["ran"] or r["value"] != w1 or r.get("value2", []) != w2:
-            rep.violation("%s, a second variable of the same type (%s: an option -p sharing the default slice / an argument B taking turns): variables are %s and %s (ran=%s err=%s), specification says %s and %s" % (
+            rep.violation(("%s after an earlier run %s on the same application: variable is %s (ran=%s err=%s), specification says %s" % (
+                describe(c), c["prerun"], r.get("value"), r.get("ran"), r.get("err"), w1)) if "pair" not in c else "%s, a second variable of the same type (%s: an option -p sharing the default slice / an argument B taking turns): variables are %s and %s (ran=%s err=%s), specification says %s and %s" % (
                 describe(c), c["pair"], r.get("value"), r.get("value2"), r.get("ran"), r.get("err"), w1, w2),
                 {"engine": "values", "case": {k: v for k, v in c.items() if k != "cli_first"}, "expected": w1, "expected2": w2})
     rep.cov["shared_default_cases"] = len(cases)
